@@ -10,7 +10,9 @@ open Matreex
 /-- the palette of element renderings (index = protocol value); must match harness/src/c20.rs -/
 def palette : Array String := #[
   "", "a", "ab", "äöü", "x\ny", "\n", "p\r\nq", "a longer rendering", "日本", "a\n\nb", "tail\n", "\r",
-  "7", "-12", "3.25", "wide\nw\nlonger line", " ", "\n\n", "é", "tab\there"]
+  "7", "-12", "3.25", "wide\nw\nlonger line", " ", "\n\n", "é", "tab\there",
+  "wwwwwwwwwwwwwwwwwwwwwwwwwwwwwwwwwwwwwwwwwwwwwwwwwwwwwwwwwwwwwwwwwwwwww",
+  "ééééééééééééééééééééééééééééééééééééééééééééééééééééééééééééééééé"]
 
 def escapeOut (s : String) : String :=
   String.join (s.toList.map fun c =>
